@@ -899,7 +899,8 @@ def odf_length(repo, tier):
             g["function"] = f"{DT}::{qual}"
             return confirm_natively({"obligations": [g], "functions": [dict(mod.fn_info(qual), obligations=1)]}, repo)
         ex = type("LengthExecutorHere", (L.LengthExecutor,), {"PATTERNS": frozenset(names)})(mod, reg, Universe(repo))
-        c = FnContract(target=f"{DT}::{qual}", params=[("length", p_str())], ensures=[("pixels-at-96-dpi-for-every-absolute-unit", L.spec)], raises=[],
+        from pyvc.verify import p_opt      # round 7: the parameter is `str | None` as annotated (None / "" -> None), the accessors pass stored Optional lengths
+        c = FnContract(target=f"{DT}::{qual}", params=[("length", p_opt(p_str()))], ensures=[("pixels-at-96-dpi-for-every-absolute-unit", L.spec)], raises=[],
                        note="CSS absolute lengths at 96 dpi; float rounding within 1/2 + 1e-9 relative")
         ex.contract = c
         ex.oid_prefix = base
@@ -2493,7 +2494,7 @@ ASSUMED_MODELS = ["str.split('/') = SEGS, '/'.join = JOINS (uninterpreted; repla
                   "validated natively on part names and content types of every casing)",
                   "io.BytesIO stream model: a stream is (content, position); BytesIO(b) / BytesIO() / BytesIO(None) hold b / nothing at position 0; seek(n) sets "
                   "the position; any other stream operation is outside the model (-> unknown); replay reads every accessor's stream twice",
-                  "data_types._odf_length_to_px AT ITS CALL SITE in OpenDocumentImage.get_metadata: functional view result == PX(argument) (determinism only); "
+                  "data_types._odf_length_to_px AT ITS CALL SITE in OpenDocumentImage.get_metadata: None for None (implied by the verified contract), result == PX(argument) for a str (determinism only); "
                   "the function's own 96-dpi contract is VERIFIED on its body (odf_length) and is not weakened by this view",
                   "ImageMetadata.__post_init__ / __setattr__ mirror the dataclass fields into the dict view (dict.__init__ is not modelled); "
                   "replay/C14.py::check_accessors compares attribute view and dict view on its grid"]
